@@ -56,6 +56,11 @@ pub trait Ep: Sync + Send {
     fn encrypted_cycle(&self, key: &[u8; 40], frames: &[Vec<u8>], wflavor: Flavor, rflavor: Flavor, probe: Option<&[u8]>) -> Option<EncCycle> {
         self.encrypted_cycle_sched(key, frames, wflavor, rflavor, probe, &Schedule::whole())
     }
+    /// one frame whose header bytes are encrypted for this direction, through the decrypting reader of `flavor`
+    /// (None for login endpoints): the decrypting readers are separate copies of the header code
+    fn read_encrypted_raw(&self, _flavor: Flavor, _plain_frame: &[u8]) -> Option<Outcome> {
+        None
+    }
     /// like encrypted_cycle, the asynchronous decrypting reader gets each message through `read_sched`
     fn encrypted_cycle_sched(&self, key: &[u8; 40], frames: &[Vec<u8>], wflavor: Flavor, rflavor: Flavor, probe: Option<&[u8]>, read_sched: &Schedule) -> Option<EncCycle>;
 }
@@ -188,6 +193,50 @@ macro_rules! world_ep {
                     Ok(x) => x,
                     Err((m, l)) => Err(format!("write panicked: '{}' at {}", m, rel_location(&l))),
                 }
+            }
+            fn read_encrypted_raw(&self, flavor: Flavor, plain_frame: &[u8]) -> Option<Outcome> {
+                let key = [0x3Cu8; 40];
+                let whole = Schedule::whole();
+                let (client, server) = crypto_pair!($srp, &key);
+                let (mut client_enc, mut client_dec) = client.split();
+                let (mut server_enc, mut server_dec) = server.split();
+                let _ = (&mut client_enc, &mut client_dec, &mut server_enc, &mut server_dec);
+                let (enc, dec) = world_ep!(@halves $writer_side, client_enc, client_dec, server_enc, server_dec);
+                // header length of this direction (Wrath server: 5 when the marker bit is set)
+                let h = if $dir == Direction::Client { 6 } else if $exp == Expansion::Wrath && plain_frame.first().map(|b| b & 0x80 != 0).unwrap_or(false) { 5 } else { 4 };
+                let mut buf = plain_frame.to_vec();
+                let n = h.min(buf.len());
+                enc.encrypt(&mut buf[..n]);
+                Some(match flavor {
+                    Flavor::Sync => {
+                        let mut c = Cursor::new(&buf[..]);
+                        match catch(|| <$Msg>::read_encrypted(&mut c, dec)) {
+                            Err((message, location)) => Outcome::Panic { message, location },
+                            Ok(Err(e)) => {
+                                let debug = format!("{:?}", e);
+                                Outcome::Err { class: classify_error(&debug), debug, consumed: c.position() as usize }
+                            }
+                            Ok(Ok(m)) => Outcome::Ok { debug: format!("{:?}", m), consumed: c.position() as usize, rewritten: Err("n/a".into()) },
+                        }
+                    }
+                    _ => {
+                        let mut s = Scripted::new(&buf, &whole);
+                        let r = catch(|| match flavor {
+                            Flavor::Tokio => driven(drive(<$Msg>::tokio_read_encrypted(&mut s, dec), MAX_POLLS), "tokio_read_encrypted"),
+                            _ => driven(drive(<$Msg>::astd_read_encrypted(&mut s, dec), MAX_POLLS), "astd_read_encrypted"),
+                        });
+                        let consumed = s.pos;
+                        match r {
+                            Err((message, location)) => Outcome::Panic { message, location },
+                            Ok(Err(o)) => o,
+                            Ok(Ok(Err(e))) => {
+                                let debug = format!("{:?}", e);
+                                Outcome::Err { class: classify_error(&debug), debug, consumed }
+                            }
+                            Ok(Ok(Ok(m))) => Outcome::Ok { debug: format!("{:?}", m), consumed, rewritten: Err("n/a".into()) },
+                        }
+                    }
+                })
             }
             fn encrypted_cycle_sched(&self, key: &[u8; 40], frames: &[Vec<u8>], wflavor: Flavor, rflavor: Flavor, probe: Option<&[u8]>, read_sched: &Schedule) -> Option<EncCycle> {
                 let whole = Schedule::whole();
